@@ -93,6 +93,9 @@ class Table:
                 return self.builtin(t["n"])
             if t["n"] == "Array":
                 return self.factory.get_array_type().new([self.build(a, env) for a in t["a"]])
+            if t["n"] == "SArray":       # Kotlin's specialised arrays: the language's own objects (IntArray, ...)
+                return next(x for x in self.factory.get_non_nothing_types()
+                            if getattr(x, "t_constructor", None).__class__.__name__ == "SpecializedArrayType" and ser(x) == t)
             ty = self.decl[t["n"]].get_type()
             if not t["a"]:
                 return ty
